@@ -3,10 +3,10 @@ package rt
 import (
 	"encoding/json"
 	"fmt"
-	"regexp"
 	"math/rand"
 	"os"
 	"path/filepath"
+	"regexp"
 	"strings"
 	"sync"
 	"time"
@@ -445,26 +445,26 @@ func RunTotal(f *Family, tier string) int {
 	}
 	ev := &Evidence{PropertyID: f.Prop, Tier: tier, Seed: seed, Level: "model_checking",
 		Coverage: map[string]any{
-			"states":                        mres.Distinct + mc.Distinct + tr.Distinct,
-			"transitions":                   mres.Generated + mc.Generated + tr.Generated,
-			"traces_validated_against_impl": ncalls,
-			"evaluations":                   ncalls,
-			"distinct_nontrivial":           tally.Rej,
-			"rule":                          f.Rule,
-			"samples":                       samples,
-			"programs":                      len(execs) - unobs,
-			"machine_states":                mres.Distinct,
-			"methods_observed":              len(events),
-			"calls":                         ncalls,
-			"calls_returning_error":         tally.Rej,
-			"calls_succeeding":              tally.Acc,
+			"states":                         mres.Distinct + mc.Distinct + tr.Distinct,
+			"transitions":                    mres.Generated + mc.Generated + tr.Generated,
+			"traces_validated_against_impl":  ncalls,
+			"evaluations":                    ncalls,
+			"distinct_nontrivial":            tally.Rej,
+			"rule":                           f.Rule,
+			"samples":                        samples,
+			"programs":                       len(execs) - unobs,
+			"machine_states":                 mres.Distinct,
+			"methods_observed":               len(events),
+			"calls":                          ncalls,
+			"calls_returning_error":          tally.Rej,
+			"calls_succeeding":               tally.Acc,
 			"units_without_generated_method": nomethod,
-			"units_unobservable":            unobs,
-			"known_finding_events":          tally.Known,
-			"drift_events":                  tally.Drift,
-			"exhaustive":                    false,
-			"checker_cmd":                   mres.Cmd,
-			"open_deviations":               devs,
+			"units_unobservable":             unobs,
+			"known_finding_events":           tally.Known,
+			"drift_events":                   tally.Drift,
+			"exhaustive":                     false,
+			"checker_cmd":                    mres.Cmd,
+			"open_deviations":                devs,
 		},
 		Assumptions: []string{
 			"whether a method declares the raw map / fills AdditionalProperties is read from the emitted source text",
